@@ -38,19 +38,44 @@ open GunYu.RdbFanout
 def parserOutput {α} (es : List α) (t : Term) (junk : List (Item α)) : List (Item α) :=
   es.map Item.entry ++ Item.term t :: junk
 
+/-- **whatever the parser delivers** (no assumption on its output): the
+    checkpoint is written only if the distributor took a `Done` and every entry
+    before it was applied — or the channel was closed without ANY terminal entry
+    (`!ok → return nil` in `distributeTask`), with every delivered entry applied.
+    `rdb.ParseRdb` never does the latter as long as `Loader.Next` converts its
+    panics into errors (`defer util.Xrecover(&err)`); the harness reports a
+    channel closed without terminal as the violation `parser-no-terminal`. -/
+theorem no_checkpoint_unless_terminated {α} (c : Cfg α) (hn : 0 < c.n)
+    (items : List (Item α)) (sched : List Ev) :
+    (run c (init items) sched).checkpoint = true →
+      (∃ (es : List α) (junk : List (Item α)), items = es.map Item.entry ++ Item.term .done :: junk ∧
+          ∀ a ∈ es, a ∈ (run c (init items) sched).applied)
+      ∨ (∃ es : List α, items = es.map Item.entry ∧ ∀ a ∈ es, a ∈ (run c (init items) sched).applied) := by
+  intro hcp
+  have inv := run_inv c items hn sched _ (init_inv c _)
+  obtain ⟨hterm, hall⟩ := inv.cp hcp
+  have hfr := inv.frame
+  rcases hterm with ht | ⟨ht, hp, htd⟩
+  · left
+    refine ⟨(run c (init items) sched).consumed,
+      (run c (init items) sched).pipe0 ++ (run c (init items) sched).todo, ?_, hall⟩
+    rw [ht] at hfr
+    simp only [termList, List.append_assoc, List.singleton_append] at hfr
+    exact hfr.symm
+  · right
+    refine ⟨(run c (init items) sched).consumed, ?_, hall⟩
+    rw [ht, hp, htd] at hfr
+    simpa [termList] using hfr.symm
+
 theorem no_checkpoint_unless_all_applied {α} (c : Cfg α) (hn : 0 < c.n)
     (es : List α) (t : Term) (junk : List (Item α)) (sched : List Ev) :
     (run c (init (parserOutput es t junk)) sched).checkpoint = true →
       t = .done ∧ ∀ a ∈ es, a ∈ (run c (init (parserOutput es t junk)) sched).applied := by
   intro hcp
-  have inv := run_inv c (parserOutput es t junk) hn ⟨es, t, junk, rfl⟩ sched _ (init_inv c _)
-  obtain ⟨hterm, hall⟩ := inv.cp hcp
-  have hfr := inv.frame
-  rw [hterm] at hfr
-  simp only [termList, parserOutput, List.append_assoc, List.singleton_append] at hfr
-  obtain ⟨hl, ht⟩ := entries_prefix_unique _ _ _ _ _ _ hfr
-  have hl' : (run c (init (parserOutput es t junk)) sched).consumed = es := hl
-  exact ⟨ht.symm, fun a ha => hall a (by rw [hl']; exact ha)⟩
+  rcases no_checkpoint_unless_terminated c hn _ sched hcp with ⟨es', junk', heq, hall⟩ | ⟨es', heq, _⟩
+  · obtain ⟨hl, ht⟩ := entries_prefix_unique _ _ _ _ _ _ (show es.map Item.entry ++ Item.term t :: junk = _ from heq)
+    exact ⟨ht, fun a ha => hall a (by rw [← hl]; exact ha)⟩
+  · exact absurd heq.symm (map_entry_ne _ _ _ _)
 
 /-- `sendRdb` returns nil only with the checkpoint written, hence only after a
     complete replay: anything else is reported as an error (failed or interrupted) -/
@@ -59,7 +84,7 @@ theorem ok_only_if_all_applied {α} (c : Cfg α) (hn : 0 < c.n)
     (run c (init (parserOutput es t junk)) sched).ret = some .ok →
       t = .done ∧ ∀ a ∈ es, a ∈ (run c (init (parserOutput es t junk)) sched).applied := by
   intro hret
-  have inv := run_inv c (parserOutput es t junk) hn ⟨es, t, junk, rfl⟩ sched _ (init_inv c _)
+  have inv := run_inv c (parserOutput es t junk) hn sched _ (init_inv c _)
   exact no_checkpoint_unless_all_applied c hn es t junk sched (inv.retOk hret)
 
 /-! non-vacuity: 2 workers, pipes of size 2/1, three entries routed 0,1,0 -/
@@ -84,6 +109,17 @@ example : (run exCfg (init exItems) exD6).applied = [10, 11] := by decide
 example : (run exCfg (init exItems) exD6).errs = false := by decide
 example : (run exCfg (init exItems) exD6).checkpoint = false ∧ (run exCfg (init exItems) exD6).ret = some .err := by decide
 
+/-- the hazard of the second disjunct: a channel closed without terminal entry
+    (a parser goroutine that died) IS taken for a complete snapshot -/
+def exNoTerm : List Ev :=
+  [.parse, .parse, .dist, .dist, .parse, .work 0, .work 1, .dist, .workClosed 0, .workClosed 1,
+   .collectD, .collectW 0, .collectW 1, .finish true]
+example : (run exCfg (init [Item.entry 10, Item.entry 11]) exNoTerm).checkpoint = true := by decide
+/-- damaged input as the parser reports it: entries, Err, then Done (ParseRdb sends both after a footer error) -/
+example : (run exCfg (init (parserOutput [10, 11] .err [Item.term .done]))
+    [.parse, .parse, .dist, .dist, .parse, .parse, .dist, .work 0, .work 1, .workCancel 0, .workClosed 0, .workClosed 1,
+     .collectD, .collectW 0, .collectW 1, .finish true]).ret = some .err := by decide
+
 /-- a target error at the second entry of worker 0 -/
 def exFail : List Ev :=
   [.parse, .parse, .dist, .dist, .parse, .work 0, .dist, .parse, .workFail 0, .work 1, .collectW 0,
@@ -97,19 +133,25 @@ section Frame
 open GunYu.RdbFrame
 
 /-- the parser is a total function and needs no more fuel than input bytes
-    (the "no hang" part a theorem can carry) -/
-theorem parse_total (maxVer : Nat) (f : Bytes) : parse maxVer f ≠ .fuelOut := by
-  unfold parse
+    (the "no hang" part a theorem can carry) — for ANY sequential item reader -/
+theorem parse_total_gen (it : Rd Item) (g : GoodItem it) (maxVer : Nat) (f : Bytes) :
+    parseWith it maxVer f ≠ .fuelOut := by
+  unfold parseWith
   split
-  · exact body_fuel _ _ _ _ (by omega)
+  · exact body_fuel it g _ _ _ _ (by omega)
   · simp
   · simp
 
-/-- every truncation of an accepted snapshot is rejected with an error -/
-theorem truncation_errors (maxVer : Nat) (f : Bytes) (n : Nat) (h : parse maxVer f = .done n) :
-    ∀ k, k < f.length → ∃ m, parse maxVer (f.take k) = .err m := by
+theorem parse_total (maxVer : Nat) (f : Bytes) : parse maxVer f ≠ .fuelOut :=
+  parse_total_gen item item_good maxVer f
+
+/-- every truncation of an accepted snapshot is rejected with an error — for
+    ANY sequential item reader (whatever value encodings it walks over) -/
+theorem truncation_errors_gen (it : Rd Item) (g : GoodItem it) (maxVer : Nat) (f : Bytes) (n : Nat)
+    (h : parseWith it maxVer f = .done n) :
+    ∀ k, k < f.length → ∃ m, parseWith it maxVer (f.take k) = .err m := by
   intro k hk
-  unfold parse at h
+  unfold parseWith at h
   cases hh : header maxVer f with
   | err => rw [hh] at h; cases h
   | unsup => rw [hh] at h; cases h
@@ -119,15 +161,19 @@ theorem truncation_errors (maxVer : Nat) (f : Bytes) (n : Nat) (h : parse maxVer
     obtain ⟨c, hc, hall, htr⟩ := header_seq maxVer f u rest hh
     by_cases hlt : k < c.length
     · have : f.take k = c.take k := by rw [hc]; exact List.take_append_of_le_length (by omega)
-      exact ⟨0, by unfold parse; rw [this, htr k hlt]⟩
+      exact ⟨0, by unfold parseWith; rw [this, htr k hlt]⟩
     · have hge : c.length ≤ k := by omega
       have hx : f.take k = c ++ rest.take (k - c.length) := by
         rw [hc, List.take_append, List.take_of_length_le hge]
       have hk' : k - c.length < rest.length := by
         rw [hc, List.length_append] at hk; omega
-      obtain ⟨m, hm⟩ := body_trunc _ f rest 0 n h (k - c.length) hk'
+      obtain ⟨m, hm⟩ := body_trunc it g _ f rest 0 n h (k - c.length) hk'
         ((rest.take (k - c.length)).length + 1) (f.take k) 0 (by rw [List.length_take]; omega)
-      exact ⟨m, by unfold parse; rw [hx, hall]; simp only; rw [← hx]; exact hm⟩
+      exact ⟨m, by unfold parseWith; rw [hx, hall]; simp only; rw [← hx]; exact hm⟩
+
+theorem truncation_errors (maxVer : Nat) (f : Bytes) (n : Nat) (h : parse maxVer f = .done n) :
+    ∀ k, k < f.length → ∃ m, parse maxVer (f.take k) = .err m :=
+  truncation_errors_gen item item_good maxVer f n h
 
 /-- the bytes the checksum covers / the footer of a file -/
 def covered (f : Bytes) : Bytes := f.take (f.length - 8)
@@ -148,17 +194,23 @@ theorem endsWithFooter_parts {g : Bytes} (h : EndsWithFooter g) :
 /-- **accepted ⇒ footer at the very end**: `Done` is emitted only when the input
     ends with the EOF opcode and a footer that is zero ("checksum disabled") or
     the CRC64 of every byte before it. An EOF opcode followed by eight zero
-    bytes anywhere earlier (D19) is an error: bytes remain. -/
-theorem done_ends_with_footer (maxVer : Nat) (g : Bytes) (m : Nat) (h : parse maxVer g = .done m) :
-    8 ≤ g.length ∧ (Rdb.ofLE (footerOf g) = 0 ∨ (Rdb.crc64Tab (covered g)).toNat = Rdb.ofLE (footerOf g)) := by
-  unfold parse at h
-  cases hh : header maxVer g with
+    bytes anywhere earlier (D19) is an error: bytes remain. For ANY sequential
+    item reader. -/
+theorem done_ends_with_footer_gen (it : Rd Item) (g : GoodItem it) (maxVer : Nat) (f : Bytes) (m : Nat)
+    (h : parseWith it maxVer f = .done m) :
+    8 ≤ f.length ∧ (Rdb.ofLE (footerOf f) = 0 ∨ (Rdb.crc64Tab (covered f)).toNat = Rdb.ofLE (footerOf f)) := by
+  unfold parseWith at h
+  cases hh : header maxVer f with
   | err => rw [hh] at h; cases h
   | unsup => rw [hh] at h; cases h
   | ok u rest =>
     rw [hh] at h
-    obtain ⟨c, hc, _, _⟩ := header_seq maxVer g u rest hh
-    exact endsWithFooter_parts (body_done _ g c rest 0 m hc h)
+    obtain ⟨c, hc, _, _⟩ := header_seq maxVer f u rest hh
+    exact endsWithFooter_parts (body_done it g _ f c rest 0 m hc h)
+
+theorem done_ends_with_footer (maxVer : Nat) (g : Bytes) (m : Nat) (h : parse maxVer g = .done m) :
+    8 ≤ g.length ∧ (Rdb.ofLE (footerOf g) = 0 ∨ (Rdb.crc64Tab (covered g)).toNat = Rdb.ofLE (footerOf g)) :=
+  done_ends_with_footer_gen item item_good maxVer g m h
 
 theorem set_covered_of_lt (f : Bytes) (i : Nat) (b : UInt8) (hi : i < f.length - 8) :
     footerOf (f.set i b) = footerOf f := by
@@ -169,10 +221,10 @@ theorem set_covered_of_lt (f : Bytes) (i : Nat) (b : UInt8) (hi : i < f.length -
     bytes the checksum covers): the altered file is refused unless the CRC64 of
     its covered bytes equals the original CRC64 — a collision between two byte
     strings that differ in exactly one byte. -/
-theorem alteration_needs_crc_collision (maxVer : Nat) (f : Bytes) (n m i : Nat) (b : UInt8)
-    (hf : parse maxVer f = .done n) (hnz : Rdb.ofLE (footerOf f) ≠ 0)
+theorem alteration_needs_crc_collision_gen (it : Rd Item) (g : GoodItem it) (maxVer : Nat) (f : Bytes) (n m i : Nat) (b : UInt8)
+    (hf : parseWith it maxVer f = .done n) (hnz : Rdb.ofLE (footerOf f) ≠ 0)
     (hi : i < f.length - 8) (hb : f[i]? ≠ some b)
-    (hg : parse maxVer (f.set i b) = .done m) :
+    (hg : parseWith it maxVer (f.set i b) = .done m) :
     covered (f.set i b) ≠ covered f ∧ Rdb.crc64Tab (covered (f.set i b)) = Rdb.crc64Tab (covered f) := by
   constructor
   · intro h
@@ -181,8 +233,8 @@ theorem alteration_needs_crc_collision (maxVer : Nat) (f : Bytes) (n m i : Nat) 
     have h1 : (List.take (f.length - 8) (f.set i b))[i]? = (List.take (f.length - 8) f)[i]? := by rw [h]
     rw [List.getElem?_take_of_lt hi, List.getElem?_take_of_lt hi, List.getElem?_set_self (by omega)] at h1
     exact hb h1.symm
-  · obtain ⟨_, hcf⟩ := done_ends_with_footer maxVer f n hf
-    obtain ⟨_, hcg⟩ := done_ends_with_footer maxVer _ m hg
+  · obtain ⟨_, hcf⟩ := done_ends_with_footer_gen it g maxVer f n hf
+    obtain ⟨_, hcg⟩ := done_ends_with_footer_gen it g maxVer _ m hg
     rw [set_covered_of_lt f i b hi] at hcg
     rcases hcf with h | hcf
     · exact absurd h hnz
@@ -205,13 +257,13 @@ theorem ofLE_inj : ∀ (a b : Bytes), a.length = b.length → Rdb.ofLE a = Rdb.o
 /-- **the stated exception**: altering a byte of the footer itself is refused
     too, unless the altered footer is eight zero bytes — which the format
     defines as "checksum disabled" (every entry is then applied unverified). -/
-theorem zero_footer_exception (maxVer : Nat) (f : Bytes) (n m i : Nat) (b : UInt8)
-    (hf : parse maxVer f = .done n) (hnz : Rdb.ofLE (footerOf f) ≠ 0)
+theorem zero_footer_exception_gen (it : Rd Item) (g : GoodItem it) (maxVer : Nat) (f : Bytes) (n m i : Nat) (b : UInt8)
+    (hf : parseWith it maxVer f = .done n) (hnz : Rdb.ofLE (footerOf f) ≠ 0)
     (hi : f.length - 8 ≤ i) (hi2 : i < f.length) (hb : f[i]? ≠ some b)
-    (hg : parse maxVer (f.set i b) = .done m) :
+    (hg : parseWith it maxVer (f.set i b) = .done m) :
     Rdb.ofLE (footerOf (f.set i b)) = 0 := by
-  obtain ⟨h8, hcf⟩ := done_ends_with_footer maxVer f n hf
-  obtain ⟨_, hcg⟩ := done_ends_with_footer maxVer _ m hg
+  obtain ⟨h8, hcf⟩ := done_ends_with_footer_gen it g maxVer f n hf
+  obtain ⟨_, hcg⟩ := done_ends_with_footer_gen it g maxVer _ m hg
   have hcov : covered (f.set i b) = covered f := by
     unfold covered; rw [List.length_set, List.take_set_of_le hi]
   rcases hcg with h | hcg
@@ -234,12 +286,12 @@ theorem zero_footer_exception (maxVer : Nat) (f : Bytes) (n m i : Nat) (b : UInt
     `alteration_needs_crc_collision` + CRC-64/Jones (as the repo computes it)
     separates any two strings that differ in exactly one byte
     (Proofs/Crc64Burst.lean). -/
-theorem alteration_detected (maxVer : Nat) (f : Bytes) (n i : Nat) (b : UInt8)
-    (hf : parse maxVer f = .done n) (hnz : Rdb.ofLE (footerOf f) ≠ 0)
+theorem alteration_detected_gen (it : Rd Item) (g : GoodItem it) (maxVer : Nat) (f : Bytes) (n i : Nat) (b : UInt8)
+    (hf : parseWith it maxVer f = .done n) (hnz : Rdb.ofLE (footerOf f) ≠ 0)
     (hi : i < f.length - 8) (hb : f[i]? ≠ some b) :
-    ∀ m, parse maxVer (f.set i b) ≠ .done m := by
+    ∀ m, parseWith it maxVer (f.set i b) ≠ .done m := by
   intro m hg
-  obtain ⟨_, hcrc⟩ := alteration_needs_crc_collision maxVer f n m i b hf hnz hi hb hg
+  obtain ⟨_, hcrc⟩ := alteration_needs_crc_collision_gen it g maxVer f n m i b hf hnz hi hb hg
   have hlen : i < (covered f).length := by unfold covered; rw [List.length_take]; omega
   have hset : covered (f.set i b) = (covered f).set i b := by
     unfold covered; rw [List.length_set, List.take_set]
@@ -257,6 +309,50 @@ theorem alteration_detected (maxVer : Nat) (f : Bytes) (n i : Nat) (b : UInt8)
   rw [hset, h2] at hcrc
   conv at hcrc => rhs; rw [h1]
   exact Rdb.crc64Tab_single_byte _ _ _ _ hx hcrc.symm
+
+/-- for an item reader that decides every input (no "outside the model"
+    answer) the altered file is not merely "not accepted": it is an ERROR -/
+theorem alteration_is_error_gen (it : Rd Item) (g : GoodItem it) (ht : Total it) (maxVer : Nat) (f : Bytes)
+    (n i : Nat) (b : UInt8)
+    (hf : parseWith it maxVer f = .done n) (hnz : Rdb.ofLE (footerOf f) ≠ 0)
+    (hi : i < f.length - 8) (hb : f[i]? ≠ some b) :
+    ∃ m, parseWith it maxVer (f.set i b) = .err m := by
+  have hnd := alteration_detected_gen it g maxVer f n i b hf hnz hi hb
+  have hnf := parse_total_gen it g maxVer (f.set i b)
+  have hnu : parseWith it maxVer (f.set i b) ≠ .unsup := by
+    unfold parseWith
+    cases hh : header maxVer (f.set i b) with
+    | err => simp
+    | unsup => exact absurd hh (header_ne_unsup maxVer _)
+    | ok u rest => exact body_total it ht _ _ _ _
+  cases hp : parseWith it maxVer (f.set i b) with
+  | done m => exact absurd hp (hnd m)
+  | err m => exact ⟨m, rfl⟩
+  | unsup => exact absurd hp hnu
+  | fuelOut => exact absurd hp hnf
+
+/-! the same for the modelled opcode grammar (`parse = parseWith item`); there
+    `unsup` (LZF, text floats, streams, modules on the parse path) is a third
+    outcome, so the conclusion is "not accepted" -/
+theorem alteration_needs_crc_collision (maxVer : Nat) (f : Bytes) (n m i : Nat) (b : UInt8)
+    (hf : parse maxVer f = .done n) (hnz : Rdb.ofLE (footerOf f) ≠ 0)
+    (hi : i < f.length - 8) (hb : f[i]? ≠ some b)
+    (hg : parse maxVer (f.set i b) = .done m) :
+    covered (f.set i b) ≠ covered f ∧ Rdb.crc64Tab (covered (f.set i b)) = Rdb.crc64Tab (covered f) :=
+  alteration_needs_crc_collision_gen item item_good maxVer f n m i b hf hnz hi hb hg
+
+theorem alteration_detected (maxVer : Nat) (f : Bytes) (n i : Nat) (b : UInt8)
+    (hf : parse maxVer f = .done n) (hnz : Rdb.ofLE (footerOf f) ≠ 0)
+    (hi : i < f.length - 8) (hb : f[i]? ≠ some b) :
+    ∀ m, parse maxVer (f.set i b) ≠ .done m :=
+  alteration_detected_gen item item_good maxVer f n i b hf hnz hi hb
+
+theorem zero_footer_exception (maxVer : Nat) (f : Bytes) (n m i : Nat) (b : UInt8)
+    (hf : parse maxVer f = .done n) (hnz : Rdb.ofLE (footerOf f) ≠ 0)
+    (hi : f.length - 8 ≤ i) (hi2 : i < f.length) (hb : f[i]? ≠ some b)
+    (hg : parse maxVer (f.set i b) = .done m) :
+    Rdb.ofLE (footerOf (f.set i b)) = 0 :=
+  zero_footer_exception_gen item item_good maxVer f n m i b hf hnz hi hi2 hb hg
 
 /-! non-vacuity: a 2-key snapshot (REDIS0009, SELECTDB 0, "a"→"1" int-encoded,
     list "l" = [x, y], EOF, CRC64) -/
